@@ -180,14 +180,29 @@ theorem C03_too_many_parameters_detected {F} (env : Env F) (strict : Bool) (err 
     cases h
     exact greater_le_right _ _
 
-/-- **too few parameters**: when the list is closed after an attribute although a non-redefining attribute is still
-    to come, the instance's severity is WARNING or worse. -/
-theorem C03_too_few_parameters_detected {F} (env : Env F) (strict : Bool) (a b : AttrD) (rest : List AttrD)
+/-- the look-ahead that examines every remaining attribute finds any one that is not redefining -/
+theorem missingCheck_every (rest : List AttrD) : missingCheck false rest = rest.any (fun b => !b.redefining) := by
+  induction rest with
+  | nil => rfl
+  | cons b t ih =>
+    unfold missingCheck
+    cases hb : b.redefining
+    · simp [hb]
+    · simp only [Bool.not_true, Bool.false_eq_true, if_false, ih, List.any_cons, hb, Bool.false_or]
+
+/-- tie: the source at hand examines every remaining attribute (2b21a5dc; the extractor pins the loop) -/
+theorem C03_source_missing_check_every_attribute : Generated.rwCfg.missingCheckEverySecond = false := by decide
+
+/-- **too few parameters**: when the list is closed after an attribute although *some* attribute still to come - anywhere
+    among the remaining ones - is not a redefining one, the instance's severity is WARNING or worse (source whose look-ahead
+    examines every remaining attribute: `C03_source_missing_check_every_attribute`). -/
+theorem C03_too_few_parameters_detected {F} (env : Env F) (strict : Bool) (a : AttrD) (rest : List AttrD)
+    (hcfg : env.cfg.missingCheckEverySecond = false)
     (err : Sev) (c : Byte) (s : IStream) (r : IR F) (sev : Sev) (v : MVal F) (s2 : IStream)
-    (hred : a.redefining = false) (hb : b.redefining = false)
+    (hred : a.redefining = false) (hb : ∃ b ∈ rest, b.redefining = false)
     (ha : attrSTEPread env strict a (readTokenSeparator s) = .ok (sev, v, s2))
     (hclose : (shiftInto c s2).1 = 41)
-    (h : readAttrs env strict (a :: b :: rest) err c s = .ok r) : r.sev.toInt ≤ Sev.warning.toInt := by
+    (h : readAttrs env strict (a :: rest) err c s = .ok r) : r.sev.toInt ≤ Sev.warning.toInt := by
   unfold readAttrs at h
   simp only [hred, Bool.false_eq_true, if_false, ha, bind, Except.bind] at h
   generalize hp : shiftInto c s2 = p at h hclose
@@ -195,13 +210,23 @@ theorem C03_too_few_parameters_detected {F} (env : Env F) (strict : Bool) (a b :
   dsimp only at h hclose
   subst hclose
   simp only [pure, Except.pure] at h
-  have hmc : missingCheck (b :: rest) = true := by unfold missingCheck; rw [hb]; rfl
+  have hmc : missingCheck env.cfg.missingCheckEverySecond rest = true := by
+    rw [hcfg, missingCheck_every]
+    obtain ⟨b, hbm, hbr⟩ := hb
+    exact List.any_eq_true.mpr ⟨b, hbm, by simp [hbr]⟩
   have e1 : (!((41 : Byte) == 44 || (41 : Byte) == 41)) = false := by decide
   have e2 : ((41 : Byte) == 41) = true := by decide
   rw [e1] at h
   simp only [Bool.false_eq_true, if_false, e2, if_true, hmc] at h
   cases h
   exact greater_le_right _ _
+
+/-- the look-ahead of the source before 2b21a5dc (two steps per round) misses a missing value behind a redefining attribute:
+    for the remaining attributes (redefining, plain) it reports nothing -/
+theorem C03_too_few_parameters_every_second_witness :
+    missingCheck true [{ name := "r", ty := .one .integer, optional := false, redefining := true },
+      { name := "p", ty := .one .integer, optional := false }] = false := by
+  decide
 
 theorem appendEntityError_le (e s : Sev) : (appendEntityError e s).toInt ≤ e.toInt := by
   unfold appendEntityError
@@ -397,21 +422,25 @@ theorem C03_count_mismatch_fails_file {F} (ops : FloatOps F) (lex : LexCfg) (cfg
 /-! ### confinement: resynchronisation -/
 
 /-- the recovery scan of `SDAI_Application_instance::STEPread`: whatever garbage stands before the closing `)` (anything
-    without a `)`), the scan ends right after the `;` that follows it -/
-theorem recoverScan_spec (body : List Byte) (hb : ∀ x ∈ body, x ≠ 41) (sp : List Byte) (hsp : sp.all isSpace = true) :
-    ∀ (fuel : Nat) (c : Byte) (l rest : List Byte) (sk : Bool), body.length + 2 ≤ fuel → c ≠ 41 →
-      recoverScan fuel c (G l (body ++ 41 :: (sp ++ 59 :: rest)) sk) =
+    without a `)` - and, for the scan that ends at a `;` outside a string literal, without apostrophe and `;`), the scan
+    ends right after the `;` that follows it; either shape of the scan, inside or outside a string literal -/
+theorem recoverScan_spec (stop : Bool) (body : List Byte) (hb : ∀ x ∈ body, x ≠ 41 ∧ (stop = true → x ≠ 39 ∧ x ≠ 59))
+    (sp : List Byte) (hsp : sp.all isSpace = true) :
+    ∀ (fuel : Nat) (q : Bool) (c : Byte) (l rest : List Byte) (sk : Bool), body.length + 2 ≤ fuel → c ≠ 41 →
+      recoverScan stop fuel q c (G l (body ++ 41 :: (sp ++ 59 :: rest)) sk) =
         .ok (G (59 :: (sp.reverse ++ 41 :: (body.reverse ++ l))) rest sk) := by
   induction body with
   | nil =>
-    intro fuel c l rest sk hf hc
+    intro fuel q c l rest sk hf hc
     match fuel, hf with
     | n + 2, _ =>
       have hc' : (c != 41) = true := by simpa using hc
       unfold recoverScan
       simp only [G_good, Bool.not_true, Bool.false_eq_true, if_false, hc', if_true, List.nil_append]
       rw [show getInto c (G l (41 :: (sp ++ 59 :: rest)) sk) = (41, G (41 :: l) (sp ++ 59 :: rest) sk) from getInto_good c l 41 _ sk]
-      simp only
+      have e1 : ((41 : Byte) == 39) = false := by decide
+      have e2 : ((41 : Byte) == 59) = false := by decide
+      simp only [e1, e2, Bool.and_false, Bool.false_and, Bool.false_eq_true, if_false]
       unfold recoverScan
       simp only [G_good, Bool.not_true, Bool.false_eq_true, if_false, bne_self_eq_false]
       rw [show (G (41 :: l) (sp ++ 59 :: rest) sk).ws = G (sp.reverse ++ 41 :: l) (59 :: rest) sk from ws_good _ sp 59 rest sk hsp (by decide)]
@@ -419,17 +448,29 @@ theorem recoverScan_spec (body : List Byte) (hb : ∀ x ∈ body, x ≠ 41) (sp 
         from getInto_good 41 _ 59 rest sk]
       simp [pure, Except.pure]
   | cons b t ih =>
-    intro fuel c l rest sk hf hc
+    intro fuel q c l rest sk hf hc
     match fuel, hf with
     | n + 1, hf =>
       have hc' : (c != 41) = true := by simpa using hc
-      have hb41 : b ≠ 41 := hb b (by simp)
+      obtain ⟨hb41, hbq⟩ := hb b (by simp)
       unfold recoverScan
       simp only [G_good, Bool.not_true, Bool.false_eq_true, if_false, hc', if_true, List.cons_append]
       rw [show getInto c (G l (b :: (t ++ 41 :: (sp ++ 59 :: rest))) sk) = (b, G (b :: l) (t ++ 41 :: (sp ++ 59 :: rest)) sk)
         from getInto_good c l b _ sk]
-      simp only
-      rw [ih (fun x hx => hb x (by simp [hx])) n b (b :: l) rest sk (by simp only [List.length_cons] at hf; omega) hb41]
+      have e1 : (stop && (b == 39)) = false := by
+        cases stop with
+        | false => rfl
+        | true => have := (hbq rfl).1; simpa using this
+      have e2 : (stop && (b == 59)) = false := by
+        cases stop with
+        | false => rfl
+        | true => have := (hbq rfl).2; simpa using this
+      have e1' : (stop && (G (b :: l) (t ++ 41 :: (sp ++ 59 :: rest)) sk).good && b == 39) = false := by
+        simp only [G_good, Bool.and_true]; exact e1
+      have e2' : (stop && (G (b :: l) (t ++ 41 :: (sp ++ 59 :: rest)) sk).good && b == 59 && !q) = false := by
+        simp only [G_good, Bool.and_true, e2, Bool.false_and]
+      simp only [e1', e2', Bool.false_eq_true, if_false]
+      rw [ih (fun x hx => hb x (by simp [hx])) n q b (b :: l) rest sk (by simp only [List.length_cons] at hf; omega) hb41]
       simp
 
 theorem shiftInto_noskip (c : Byte) (l : List Byte) (x : Byte) (t : List Byte) :
@@ -468,28 +509,31 @@ theorem scanTo_semicolon (skipCmt : Bool) (body : List Byte)
       simp
 
 /-- **resynchronisation, recovery scan**: see `recoverScan_spec` -/
-theorem C03_recovery_scan_resynchronises (body : List Byte) (hb : ∀ x ∈ body, x ≠ 41) (sp : List Byte) (hsp : sp.all isSpace = true)
-    (fuel : Nat) (c : Byte) (l rest : List Byte) (sk : Bool) (hf : body.length + 2 ≤ fuel) (hc : c ≠ 41) :
-    recoverScan fuel c (G l (body ++ 41 :: (sp ++ 59 :: rest)) sk) =
+theorem C03_recovery_scan_resynchronises (stop : Bool) (body : List Byte)
+    (hb : ∀ x ∈ body, x ≠ 41 ∧ (stop = true → x ≠ 39 ∧ x ≠ 59)) (sp : List Byte) (hsp : sp.all isSpace = true)
+    (fuel : Nat) (q : Bool) (c : Byte) (l rest : List Byte) (sk : Bool) (hf : body.length + 2 ≤ fuel) (hc : c ≠ 41) :
+    recoverScan stop fuel q c (G l (body ++ 41 :: (sp ++ 59 :: rest)) sk) =
       .ok (G (59 :: (sp.reverse ++ 41 :: (body.reverse ++ l))) rest sk) :=
-  recoverScan_spec body hb sp hsp fuel c l rest sk hf hc
+  recoverScan_spec stop body hb sp hsp fuel q c l rest sk hf hc
 
 /-- the source as it is now: the recovery scan leaves the `;` (regenerated on every run) -/
 theorem C03_source_recovery_keeps_semicolon : Generated.rwCfg.recoveryKeepsSemicolon = true := by decide
 
 /-- **confinement of too many parameters**: when the parameter list has more parameters than attributes, whatever the
-    extra parameters are (any bytes without `)`), `SDAI_Application_instance::STEPread` returns INPUT_ERROR or worse and —
+    extra parameters are (any bytes without `)` — and without apostrophe and `;` where the scan ends at a `;` outside a string
+    literal), `SDAI_Application_instance::STEPread` returns INPUT_ERROR or worse and —
     in the repaired source — leaves the stream exactly at the instance's terminating `;`: `ReadInstance` then reads
     that `;` and the instance that follows is untouched. -/
 theorem C03_too_many_parameters_confined {F} (env : Env F) (strict : Bool) (hcfg : env.cfg.recoveryKeepsSemicolon = true)
-    (body : List Byte) (hb : ∀ x ∈ body, x ≠ 41) (sp : List Byte) (hsp : sp.all isSpace = true)
+    (body : List Byte) (hb : ∀ x ∈ body, x ≠ 41 ∧ (env.cfg.recoveryStopsAtSemicolon = true → x ≠ 39 ∧ x ≠ 59))
+    (sp : List Byte) (hsp : sp.all isSpace = true)
     (err : Sev) (c : Byte) (hc : c ≠ 41) (l rest : List Byte) (sk : Bool) :
     readAttrs env strict [] err c (G l (body ++ 41 :: (sp ++ 59 :: rest)) sk) =
       .ok ⟨err.greater .inputError, [], G (sp.reverse ++ 41 :: (body.reverse ++ l)) (59 :: rest) sk, .null⟩ := by
   unfold readAttrs
   have hclear : (G l (body ++ 41 :: (sp ++ 59 :: rest)) sk).clear = G l (body ++ 41 :: (sp ++ 59 :: rest)) sk := rfl
   simp only [bind, Except.bind, pure, Except.pure, hclear]
-  rw [recoverScan_spec body hb sp hsp _ c l rest sk
+  rw [recoverScan_spec _ body hb sp hsp _ false c l rest sk
     (by simp only [List.length_append, List.length_cons]; omega) hc]
   simp only [hcfg, G_good, Bool.and_self, if_true]
   rw [show IStream.putback 59 (G (59 :: (sp.reverse ++ 41 :: (body.reverse ++ l))) rest sk) =
@@ -746,10 +790,11 @@ theorem C03_missing_required_aggregate_detected {F} (env : Env F) (strict : Bool
     counts as a delimiter — that starts with neither a blank nor `/` nor a backslash): WARNING -/
 theorem C03_value_for_derived_detected {F} (env : Env F) (strict : Bool) (a : AttrD) (hder : a.derived = true)
     (hred : a.redefining = false) (j0 : Byte) (js : List Byte) (hj0s : isSpace j0 = false) (hj047 : j0 ≠ 47) (hj092 : j0 ≠ 92) (hj042 : j0 ≠ 42)
-    (hj : ∀ b ∈ j0 :: js, delimAt env.lex attrDelims b = false) (before : List Byte) (hb : Seps before) :
+    (hj : ∀ b ∈ j0 :: js, delimAt env.lex attrDelims b = false)
+    (hsemi : env.lex.criStopsAtSemicolon = true → ∀ b ∈ j0 :: js, b ≠ 59) (before : List Byte) (hb : Seps before) :
     ParamRd env strict { a := a, v := .derived, tok := j0 :: js, before := before, after := [] } .warning :=
   ⟨hred, ⟨j0, js, rfl, hj0s, hj047, hj092⟩, hb, fun l sk d rest hd =>
-    ⟨sk, Or.inl rfl, by simpa using attr_derived_value env strict a hder j0 js hj0s hj047 hj042 hj l sk d rest hd⟩⟩
+    ⟨sk, Or.inl rfl, by simpa using attr_derived_value env strict a hder j0 js hj0s hj047 hj042 hj hsemi l sk d rest hd⟩⟩
 
 /-- **wrong literal kind for an INTEGER attribute**: a text that starts like no integer — a string, an enumeration
     item, a binary, a keyword, a reference — and contains no `,` `)` (for those that do, see `Flawed` and the
@@ -758,10 +803,11 @@ theorem C03_wrong_kind_for_integer_detected {F} (env : Env F) (strict : Bool) (a
     (hder : a.derived = false) (hred : a.redefining = false)
     (j0 : Byte) (js : List Byte) (hj0s : isSpace j0 = false) (hj047 : j0 ≠ 47) (hj092 : j0 ≠ 92) (hj036 : j0 ≠ 36)
     (hj0d : isDigit j0 = false) (hj043 : j0 ≠ 43) (hj045 : j0 ≠ 45)
-    (hj : ∀ b ∈ j0 :: js, delimAt env.lex attrDelims b = false) (before : List Byte) (hb : Seps before) :
+    (hj : ∀ b ∈ j0 :: js, delimAt env.lex attrDelims b = false)
+    (hsemi : env.lex.criStopsAtSemicolon = true → ∀ b ∈ j0 :: js, b ≠ 59) (before : List Byte) (hb : Seps before) :
     ParamRd env strict { a := a, v := .one (.atom .unset), tok := j0 :: js, before := before, after := [] } .warning :=
   ⟨hred, ⟨j0, js, rfl, hj0s, hj047, hj092⟩, hb, fun l sk d rest hd =>
-    ⟨sk, Or.inl rfl, by simpa using attr_integer_junk env strict a hty hder j0 js hj0s hj047 hj036 hj0d hj043 hj045 hj l sk d rest hd⟩⟩
+    ⟨sk, Or.inl rfl, by simpa using attr_integer_junk env strict a hty hder j0 js hj0s hj047 hj036 hj0d hj043 hj045 hj hsemi l sk d rest hd⟩⟩
 
 /-- **dangling or wrong-type reference**: `#id` where the file has no instance `id`, or one whose type does not conform
     to the attribute's entity type: WARNING, the attribute stays unset -/
@@ -790,10 +836,11 @@ theorem C03_undeclared_enum_item_detected {F} (env : Env F) (strict : Bool) (hcf
 theorem C03_wrong_kind_for_string_detected {F} (env : Env F) (strict : Bool) (a : AttrD) (hty : a.ty = .one .string)
     (hder : a.derived = false) (hred : a.redefining = false)
     (j0 : Byte) (js : List Byte) (hj0s : isSpace j0 = false) (hj047 : j0 ≠ 47) (hj092 : j0 ≠ 92) (hj036 : j0 ≠ 36) (hj039 : j0 ≠ 39)
-    (hj : ∀ b ∈ j0 :: js, delimAt env.lex attrDelims b = false) (before : List Byte) (hb : Seps before) :
+    (hj : ∀ b ∈ j0 :: js, delimAt env.lex attrDelims b = false)
+    (hsemi : env.lex.criStopsAtSemicolon = true → ∀ b ∈ j0 :: js, b ≠ 59) (before : List Byte) (hb : Seps before) :
     ParamRd env strict { a := a, v := .one (.atom .unset), tok := j0 :: js, before := before, after := [] } .warning :=
   ⟨hred, ⟨j0, js, rfl, hj0s, hj047, hj092⟩, hb, fun l sk d rest hd =>
-    ⟨sk, Or.inl rfl, by simpa using attr_string_junk env strict a hty hder j0 js hj0s hj047 hj036 hj039 hj l sk d rest hd⟩⟩
+    ⟨sk, Or.inl rfl, by simpa using attr_string_junk env strict a hty hder j0 js hj0s hj047 hj036 hj039 hj hsemi l sk d rest hd⟩⟩
 
 /-- **wrong literal kind for a REAL attribute**: a text that starts like no numeral (a string, an enumeration item, a
     reference, a keyword not starting with `E`/`e`) and holds no `,` `)`: nothing is collected, WARNING, unset (whether
@@ -801,20 +848,22 @@ theorem C03_wrong_kind_for_string_detected {F} (env : Env F) (strict : Bool) (a 
 theorem C03_wrong_kind_for_real_detected {F} (env : Env F) (strict : Bool) (a : AttrD) (hty : a.ty = .one .real)
     (hder : a.derived = false) (hred : a.redefining = false)
     (j0 : Byte) (js : List Byte) (hj0s : isSpace j0 = false) (hj047 : j0 ≠ 47) (hj092 : j0 ≠ 92) (hj036 : j0 ≠ 36) (hnn : notNum j0)
-    (hj : ∀ b ∈ j0 :: js, delimAt env.lex attrDelims b = false) (before : List Byte) (hb : Seps before) :
+    (hj : ∀ b ∈ j0 :: js, delimAt env.lex attrDelims b = false)
+    (hsemi : env.lex.criStopsAtSemicolon = true → ∀ b ∈ j0 :: js, b ≠ 59) (before : List Byte) (hb : Seps before) :
     ParamRd env strict { a := a, v := .one (.atom .unset), tok := j0 :: js, before := before, after := [] } .warning :=
   ⟨hred, ⟨j0, js, rfl, hj0s, hj047, hj092⟩, hb, fun l sk d rest hd =>
-    ⟨sk, Or.inl rfl, by simpa using attr_real_junk env strict a hty hder j0 js hj0s hj047 hj036 hnn hj l sk d rest hd⟩⟩
+    ⟨sk, Or.inl rfl, by simpa using attr_real_junk env strict a hty hder j0 js hj0s hj047 hj036 hnn hj hsemi l sk d rest hd⟩⟩
 
 /-- **wrong literal kind for an ENUMERATION / BOOLEAN / LOGICAL attribute**: a text that starts with neither `.` nor a
     letter (a number, a string, a reference, a binary) and holds no `,` `)`: WARNING, unset -/
 theorem C03_wrong_kind_for_enum_detected {F} (env : Env F) (strict : Bool) (a : AttrD) (ty : ElemTy) (hty : a.ty = .one ty)
     (het : EnumTy ty) (hder : a.derived = false) (hred : a.redefining = false)
     (j0 : Byte) (js : List Byte) (hj0s : isSpace j0 = false) (hj047 : j0 ≠ 47) (hj092 : j0 ≠ 92) (hj036 : j0 ≠ 36) (hj046 : j0 ≠ 46)
-    (hj0a : isAlpha j0 = false) (hj : ∀ b ∈ j0 :: js, delimAt env.lex attrDelims b = false) (before : List Byte) (hb : Seps before) :
+    (hj0a : isAlpha j0 = false) (hj : ∀ b ∈ j0 :: js, delimAt env.lex attrDelims b = false)
+    (hsemi : env.lex.criStopsAtSemicolon = true → ∀ b ∈ j0 :: js, b ≠ 59) (before : List Byte) (hb : Seps before) :
     ParamRd env strict { a := a, v := .one (.atom .unset), tok := j0 :: js, before := before, after := [] } .warning :=
   ⟨hred, ⟨j0, js, rfl, hj0s, hj047, hj092⟩, hb, fun l sk d rest hd =>
-    ⟨sk, Or.inl rfl, by simpa using attr_enum_junk env strict a ty hty het hder j0 js hj0s hj047 hj036 hj046 hj0a hj l sk d rest hd⟩⟩
+    ⟨sk, Or.inl rfl, by simpa using attr_enum_junk env strict a ty hty het hder j0 js hj0s hj047 hj036 hj046 hj0a hj hsemi l sk d rest hd⟩⟩
 
 /-- **wrong literal kind for an entity-valued attribute**: a text that starts with neither `#` nor `@` (a number, a string,
     an enumeration item, a keyword) and holds no `,` `)`: `ReadEntityRef` puts the character back, WARNING, unset (whether
@@ -823,10 +872,11 @@ theorem C03_wrong_kind_for_reference_detected {F} (env : Env F) (strict : Bool) 
     (hty : a.ty = .one (.entity tg)) (hder : a.derived = false) (hred : a.redefining = false)
     (j0 : Byte) (js : List Byte) (hj0s : isSpace j0 = false) (hj047 : j0 ≠ 47) (hj092 : j0 ≠ 92) (hj036 : j0 ≠ 36)
     (hj035 : j0 ≠ 35) (hj064 : j0 ≠ 64)
-    (hj : ∀ b ∈ j0 :: js, delimAt env.lex attrDelims b = false) (before : List Byte) (hb : Seps before) :
+    (hj : ∀ b ∈ j0 :: js, delimAt env.lex attrDelims b = false)
+    (hsemi : env.lex.criStopsAtSemicolon = true → ∀ b ∈ j0 :: js, b ≠ 59) (before : List Byte) (hb : Seps before) :
     ParamRd env strict { a := a, v := .one (.atom .unset), tok := j0 :: js, before := before, after := [] } .warning :=
   ⟨hred, ⟨j0, js, rfl, hj0s, hj047, hj092⟩, hb, fun l sk d rest hd =>
-    ⟨sk, Or.inl rfl, by simpa using attr_ref_junk env strict a tg hty hder j0 js hj0s hj047 hj036 hj035 hj064 hj l sk d rest hd⟩⟩
+    ⟨sk, Or.inl rfl, by simpa using attr_ref_junk env strict a tg hty hder j0 js hj0s hj047 hj036 hj035 hj064 hj hsemi l sk d rest hd⟩⟩
 
 /-- **wrong literal kind for a BINARY attribute**: a text of two or more characters that starts with neither `"` nor a
     hexadecimal digit (a string, an enumeration item, a reference, a keyword not starting with `A`…`F`) and holds no
@@ -835,10 +885,11 @@ theorem C03_wrong_kind_for_binary_detected {F} (env : Env F) (strict : Bool) (a 
     (hder : a.derived = false) (hred : a.redefining = false)
     (j0 j1 : Byte) (js : List Byte) (hj0s : isSpace j0 = false) (hj047 : j0 ≠ 47) (hj092 : j0 ≠ 92) (hj036 : j0 ≠ 36)
     (hj034 : j0 ≠ 34) (hj0x : isXDigit j0 = false) (hj1s : isSpace j1 = false) (hj147 : j1 ≠ 47)
-    (hj : ∀ b ∈ j0 :: j1 :: js, delimAt env.lex attrDelims b = false) (before : List Byte) (hb : Seps before) :
+    (hj : ∀ b ∈ j0 :: j1 :: js, delimAt env.lex attrDelims b = false)
+    (hsemi : env.lex.criStopsAtSemicolon = true → ∀ b ∈ j0 :: j1 :: js, b ≠ 59) (before : List Byte) (hb : Seps before) :
     ParamRd env strict { a := a, v := .one (.atom .unset), tok := j0 :: j1 :: js, before := before, after := [] } .warning :=
   ⟨hred, ⟨j0, j1 :: js, rfl, hj0s, hj047, hj092⟩, hb, fun l sk d rest hd =>
-    ⟨sk, Or.inl rfl, by simpa using attr_binary_junk env strict a hty hder j0 j1 js hj0s hj036 hj034 hj0x hj1s hj147 hj l sk d rest hd⟩⟩
+    ⟨sk, Or.inl rfl, by simpa using attr_binary_junk env strict a hty hder j0 j1 js hj0s hj036 hj034 hj0x hj1s hj147 hj hsemi l sk d rest hd⟩⟩
 
 /-- **wrong literal kind for a NUMBER attribute**: a text that starts like no numeral (a string, an enumeration item, a
     reference, a keyword not starting with `E`/`e`) and holds no `,` `)`: `in >> d` extracts nothing, WARNING, unset
@@ -846,10 +897,11 @@ theorem C03_wrong_kind_for_binary_detected {F} (env : Env F) (strict : Bool) (a 
 theorem C03_wrong_kind_for_number_detected {F} (env : Env F) (strict : Bool) (a : AttrD) (hty : a.ty = .one .number)
     (hder : a.derived = false) (hred : a.redefining = false)
     (j0 : Byte) (js : List Byte) (hj0s : isSpace j0 = false) (hj047 : j0 ≠ 47) (hj092 : j0 ≠ 92) (hj036 : j0 ≠ 36) (hnn : notNum j0)
-    (hj : ∀ b ∈ j0 :: js, delimAt env.lex attrDelims b = false) (before : List Byte) (hb : Seps before) :
+    (hj : ∀ b ∈ j0 :: js, delimAt env.lex attrDelims b = false)
+    (hsemi : env.lex.criStopsAtSemicolon = true → ∀ b ∈ j0 :: js, b ≠ 59) (before : List Byte) (hb : Seps before) :
     ParamRd env strict { a := a, v := .one (.atom .unset), tok := j0 :: js, before := before, after := [] } .warning :=
   ⟨hred, ⟨j0, js, rfl, hj0s, hj047, hj092⟩, hb, fun l sk d rest hd =>
-    ⟨sk, Or.inl rfl, by simpa using attr_number_junk env strict a hty hder j0 js hj0s hj047 hj036 hnn hj l sk d rest hd⟩⟩
+    ⟨sk, Or.inl rfl, by simpa using attr_number_junk env strict a hty hder j0 js hj0s hj047 hj036 hnn hj hsemi l sk d rest hd⟩⟩
 
 /-- **no select value**: for an attribute of a select type, a text that starts like none of the forms
     `SDAI_Select::STEPread` tries (no letter, `#`, `.`, apostrophe, `"`, digit, `-`, `(`, NUL — e.g. `*`, `+5`, `%`) and
@@ -860,12 +912,13 @@ theorem C03_no_select_value_detected {F} (env : Env F) (strict : Bool) (a : Attr
     (j0 : Byte) (js : List Byte) (hj0s : isSpace j0 = false) (hj047 : j0 ≠ 47) (hj092 : j0 ≠ 92) (hj036 : j0 ≠ 36)
     (hj0a : isAlpha j0 = false) (hj00 : j0 ≠ 0) (hj035 : j0 ≠ 35) (hj046 : j0 ≠ 46) (hj039 : j0 ≠ 39) (hj034 : j0 ≠ 34)
     (hj0d : isDigit j0 = false) (hj045 : j0 ≠ 45) (hj040 : j0 ≠ 40)
-    (hj : ∀ b ∈ j0 :: js, delimAt env.lex attrDelims b = false) (before : List Byte) (hb : Seps before) :
+    (hj : ∀ b ∈ j0 :: js, delimAt env.lex attrDelims b = false)
+    (hsemi : env.lex.criStopsAtSemicolon = true → ∀ b ∈ j0 :: js, b ≠ 59) (before : List Byte) (hb : Seps before) :
     ParamRd env strict { a := a, v := .one (.atom .unset), tok := j0 :: js, before := before, after := [] } .warning :=
   ⟨hred, ⟨j0, js, rfl, hj0s, hj047, hj092⟩, hb, fun l sk d rest hd =>
     ⟨sk, Or.inl rfl, by
       simpa using (attr_select_junk env strict a n sd hty hsd hder j0 js hj0s hj047 hj036 hj0a hj00 hj035 hj046
-        hj039 hj034 hj0d hj045 hj040 hj l sk d rest hd)⟩⟩
+        hj039 hj034 hj0d hj045 hj040 hj hsemi l sk d rest hd)⟩⟩
 
 /-- **something that is no aggregate where one is required**: at whatever point of the parameter list the reader stands
     (`err`, `c`, `l` arbitrary), in any layout in front of it, if the text for an aggregate attribute starts with anything
@@ -893,13 +946,20 @@ theorem C03_source_dollar_keeps_error : Generated.rwLexCfg.dollarKeepsError = tr
 theorem C03_junk_after_dollar_detected {F} (env : Env F) (strict : Bool) (a : AttrD) (hopt : a.optional = true)
     (hder : a.derived = false) (hred : a.redefining = false) (hkeep : env.lex.dollarKeepsError = true)
     (j0 : Byte) (js : List Byte) (hj0s : isSpace j0 = false) (hj047 : j0 ≠ 47)
-    (hj : ∀ b ∈ j0 :: js, delimAt env.lex attrDelims b = false) (before : List Byte) (hb : Seps before) :
+    (hj : ∀ b ∈ j0 :: js, delimAt env.lex attrDelims b = false)
+    (hsemi : env.lex.criStopsAtSemicolon = true → ∀ b ∈ j0 :: js, b ≠ 59) (before : List Byte) (hb : Seps before) :
     ParamRd env strict { a := a, v := nullOf a, tok := 36 :: j0 :: js, before := before, after := [] } .warning :=
   ⟨hred, ⟨36, j0 :: js, rfl, by decide, by decide, by decide⟩, hb, fun l sk d rest hd =>
-    ⟨sk, Or.inl rfl, by simpa using attr_dollar_junk env strict a hopt hder hkeep j0 js hj0s hj047 hj l sk d rest hd⟩⟩
+    ⟨sk, Or.inl rfl, by simpa using attr_dollar_junk env strict a hopt hder hkeep j0 js hj0s hj047 hj hsemi l sk d rest hd⟩⟩
 
 /-! ### externally mapped instances: what the attributes of a part report reaches the instance
     (`STEPcomplex::STEPread` as repaired by fixes/C15: `complexMergesAttrErrors`) -/
+
+/-- tie: the source at hand merges the errors of the other parts' attributes and `ReadInstance` reports a complex
+    instance's error (C15's regenerated table `AttrNull.codeShape`, cross-checked by tools/extract.d/p21rw.py) -/
+theorem C03_source_complex_part_errors_reach_file :
+    Generated.rwCfg.complexMergesAttrErrors = true ∧ Generated.rwCfg.complexMergesParts = false ∧
+    Generated.rwCfg.complexReportsError = true := by decide
 
 theorem attrSev_le (a : AttrD) (sev rest : Sev) (hder : a.derived = false) (hs : sev.toInt ≤ Sev.usermsg.toInt) :
     (attrSev a sev rest).toInt ≤ sev.toInt := by
@@ -1011,6 +1071,10 @@ def exRun : M (FileResult Nat) :=
 example : (match exRun with | .ok r => r.reported | .error _ => []) = [Sev.warning] := by decide
 example : (match exRun with | .ok r => exitStatus r.sev | .error _ => 0) = 1 := by decide
 
+/-- tie: the source at hand merges the filler's USERMSG with what `CheckRemainingInput` found behind the `$` (fixes/C03-4 is
+    in; the extractor pins both shapes) - `C03_junk_after_dollar_filler_detected` speaks about the generated configuration -/
+theorem C03_source_filler_keeps_error : Generated.rwCfg.fillerKeepsError = true := by decide
+
 /-- the filler's own severity is USERMSG for the four kinds it knows, whatever the float arithmetic (C15's regenerated table) -/
 theorem C03_source_filler_usermsg {F} (ops : FloatOps F) (k : AttrNull.Kind)
     (hk : k = .integer ∨ k = .real ∨ k = .number ∨ k = .string) (s : IStream) : (fillerValue ops k s).1 = Sev.usermsg := by
@@ -1024,13 +1088,14 @@ theorem C03_junk_after_dollar_filler_detected {F} (env : Env F) (a : AttrD) (k :
     (hopt : a.optional = false) (hder : a.derived = false) (hred : a.redefining = false)
     (hkeep : env.cfg.fillerKeepsError = true)
     (j0 : Byte) (js : List Byte) (hj0s : isSpace j0 = false) (hj047 : j0 ≠ 47)
-    (hj : ∀ b ∈ j0 :: js, delimAt env.lex attrDelims b = false) (before : List Byte) (hb : Seps before)
+    (hj : ∀ b ∈ j0 :: js, delimAt env.lex attrDelims b = false)
+    (hsemi : env.lex.criStopsAtSemicolon = true → ∀ b ∈ j0 :: js, b ≠ 59) (before : List Byte) (hb : Seps before)
     (v : MVal F) (hv : ∀ s, (fillerValue env.ops k s).2.1 = v) :
     ParamRd env false { a := a, v := v, tok := 36 :: j0 :: js, before := before, after := [] } .warning := by
   have hk' : k = .integer ∨ k = .real ∨ k = .number ∨ k = .string := by
     rcases hk with ⟨_, h⟩ | ⟨_, h⟩ | ⟨_, h⟩ | ⟨_, h⟩ <;> simp [h]
   refine ⟨hred, ⟨36, j0 :: js, rfl, by decide, by decide, by decide⟩, hb, fun l sk d rest hd => ⟨sk, Or.inl rfl, ?_⟩⟩
-  have h := attr_dollar_junk_filler env a k hk hopt hder hkeep (C03_source_filler_usermsg env.ops k hk') j0 js hj0s hj047 hj l sk d rest hd
+  have h := attr_dollar_junk_filler env a k hk hopt hder hkeep (C03_source_filler_usermsg env.ops k hk') j0 js hj0s hj047 hj hsemi l sk d rest hd
   rw [hv] at h
   simpa using h
 
